@@ -156,6 +156,36 @@ def _toy_chunk(args):
                                       "verify_message(%s of d=%d compressed=%s, %s, msg_hash=%d) on curve %s (signed by d=%d over e=%d, recid %d): spec %s, pycoin %s"
                                       % (p["kd"], p["d"], p["comp"], text, p["e"], cname, rec["d"], rec["e"], rec["recid"], p["exp"], got),
                                       {"curve": params, "rec": rec, "probe": p, "got": got}))
+            # the same case at message level, through network.msg.sign / verify / parse_signed: a message whose digest is
+            # in the class of e modulo N must give exactly the signature TLC printed (all arithmetic is modulo N)
+            m = drv.toy_message(t, rec["e"])
+            got = drv.toy_sign_message(t, rec["d"], rec["k0"], True, m)
+            cnt("eval")
+            cnt("toy.sign_message")
+            if got != ("ok", rec["tc"]):
+                g = "exc:" + got[1] if got[0] == "exc" else "text-differs"
+                fails.append(("C17|sign|message|recid=%d|got=%s" % (rec["recid"], g),
+                              "network.msg.sign(key d=%d, %r) with nonce %d on the network built over curve %s: spec demands %s, pycoin gives %r"
+                              % (rec["d"], m, rec["k0"], cname, rec["tc"], got), {"curve": params, "rec": rec, "got": got, "message": m}))
+            for kd, d2, exp, rel in (("key", rec["d"], True, "signer"), ("addr", rec["d"], True, "signer"),
+                                     ("key", rec["d"] % (params[5] - 1) + 1, False, "otherkey")):
+                who = drv.toy_who(t, kd, d=d2, comp=True)
+                got = drv.toy_verify_message(t, who, rec["tc"], m)
+                cnt("eval")
+                cnt("toy.verify")
+                if got != exp:
+                    fails.append((_vkey("ok_message", hi, kd, rel, exp, got),
+                                  "network.msg.verify(%s of d=%d, %s, %r) on the network built over curve %s (signed by d=%d): spec %s, pycoin %s"
+                                  % (kd, d2, rec["tc"], m, cname, rec["d"], exp, got), {"curve": params, "rec": rec, "got": got, "message": m}))
+            if rec["k0"] == rec["kf"] and rec["d"] <= 2:
+                arm = drv.toy_sign_message(t, rec["d"], rec["k0"], True, m, verbose=True)
+                pr = drv.call(t.msg.parse_signed, arm[1]) if arm[0] == "ok" else arm
+                cnt("eval", 2)
+                want = ("ok", (m, drv.toy_who(t, "addr", d=rec["d"], comp=True), rec["tc"]))
+                if pr != want:
+                    fails.append(("C17|armour|toy-network|got=%s" % ("exc:" + pr[1] if pr[0] == "exc" else "differs"),
+                                  "network.msg.parse_signed(network.msg.sign(key d=%d, %r, verbose=True)) on curve %s: expected %r, pycoin %r"
+                                  % (rec["d"], m, cname, want, pr), {"curve": params, "rec": rec}))
         elif kind == "rec":
             h = rec["h"]
             recid = (h - 27) % 4 if 27 <= h <= 34 else -1
@@ -215,6 +245,7 @@ def stage_toy(ctx):
     plan = [("p43", "q"), ("p103", "q")] if q else [("p43", "t"), ("p83", "t"), ("p103", "t")]
     first = {}
     for cname, tier in plan:
+        drv.toy_message(drv.toy(CURVES[cname]), 0)        # build the toy network before forking: the workers inherit it
         st = Stream(_toy_chunk, (cname, CURVES[cname]))
 
         def on(rec, st=st):
@@ -602,7 +633,7 @@ def stage_traces(ctx):
     nets, path = _write_nets()
     os.unlink(path)
     q = ctx.quick
-    traces = record_traces(ctx.seed * 7919 + 17, 240 if q else 2000, nets, 300 if q else 1200)
+    traces = record_traces(ctx.seed * 7919 + 17, 160 if q else 2000, nets, 300 if q else 1200)
     from ..par import split
     accepted = []
     for ci, chunk in enumerate(split(traces, max(1, len(traces) // 750))):
@@ -727,7 +758,7 @@ def stage_model(ctx):
     t = "q" if q else "t"
     # text side: armour round trip, digest preimage injective (+ the pinned constants / vectors in the ASSUMEs)
     ctx.tlc("MC_MsgText", "MC_MsgText_armour_" + t, timeout=3000)
-    ctx.tlc("MC_MsgText", "MC_MsgText_digest", timeout=3000)
+    ctx.tlc("MC_MsgText", "MC_MsgText_digest_q" if q else "MC_MsgText_digest", timeout=3000)
     # controls: the lemmas are not vacuous
     r = ctx.tlc("MC_MsgText", "MC_MsgText_armour_marker", expect_ok=False, count=False)
     ctx.selftest("model_rejects_message_with_marker_line", (not r.ok) and r.violated == "Holds")
